@@ -101,6 +101,15 @@ static void putVec(vio::Out & o, const POMDP::Belief & v) {
     for (Eigen::Index i = 0; i < v.size(); ++i) o << (double) v[i];
 }
 
+// may input and output of the correct stage be the same vector for this model type? (see runModel)
+template <typename M>
+static constexpr bool aliasOK() {
+    if constexpr (POMDP::IsModelEigen<M>) {
+        using OT = std::remove_cvref_t<decltype(std::declval<const M &>().getObservationFunction(0))>;
+        return std::is_base_of_v<Eigen::MatrixBase<OT>, OT>;      // dense observation matrices
+    } else return true;                                           // query loop
+}
+
 template <typename M>
 static void runModel(const M & model, const std::vector<POMDP::Belief> & beliefs, vio::Out & out) {
     const size_t S = model.getS(), A = model.getA(), O = model.getO();
@@ -126,6 +135,18 @@ static void runModel(const M & model, const std::vector<POMDP::Belief> & beliefs
                 putVec(out, pn);
                 // value overload: separate code in Utils.hpp
                 putVec(out, POMDP::updateBeliefPartialNormalized(model, part, a, o));
+                // in-place use of the (element-wise) correct stage: updateBeliefPartial(m,b,a,&work); then
+                // update…(m, work, a, o, &work).  Only for models whose observation matrices are dense or that take
+                // the query loop: with SPARSE observation matrices Eigen clears the destination before reading
+                // it, already on the unchanged tree (notes/C05.md, round 3), so those are not exercised.
+                if constexpr (aliasOK<M>()) {
+                    POMDP::Belief work = part;
+                    POMDP::updateBeliefPartialUnnormalized(model, work, a, o, &work);
+                    putVec(out, work);
+                    work = part;
+                    POMDP::updateBeliefPartialNormalized(model, work, a, o, &work);
+                    putVec(out, work);
+                }
             }
         }
     }
@@ -354,6 +375,11 @@ int main(int argc, char ** argv) {
                 };
                 apply(dense, std::false_type{});
                 apply(sparse, std::true_type{});
+                // probe: repeat, right after the setter, the (belief, action, observation) of the LAST by-value
+                // updateBeliefUnnormalized query made before it (the last one of the previous snapshot); the
+                // answer must come from the tables the object holds NOW
+                putVec(out, POMDP::updateBeliefUnnormalized(dense, beliefs.back(), A - 1, O - 1));
+                putVec(out, POMDP::updateBeliefUnnormalized(sparse, beliefs.back(), A - 1, O - 1));
                 snapshot();
             }
         } else if (kind == "seq") {
